@@ -12,7 +12,8 @@ C08, theorem-gap round: clauses that were decided by a monitor / a witness only.
 * adaptive steppers (`Model/Adaptive.lean`: the inner loop of `adaptive_stepper` with its clipping of the step to the
   next tracker time, and the controller loop whose tolerances follow the current `dt`):
   `adaptiveStepper_lands`, `adaptive_served_exactly_up_to_dtmin`, `adaptive_served_exactly_run`,
-  witness `adaptive_overshoot_by_dtmin`.
+  witness `adaptive_overshoot_by_dtmin`; any tracker collection: `adaptive_never_late_among_trackers`,
+  `adaptive_never_late_run`.
 -/
 set_option linter.unusedSectionVars false
 set_option linter.unusedVariables false
@@ -372,6 +373,174 @@ theorem adaptive_served_exactly_run (dt tStart tEnd eps dtMin : K) (flow : S →
     ⟨⟨sp.init tStart, rfl, by simpa using hs0.1, by simpa using hs0.2⟩,
       Or.inl ⟨by simp, by simpa using hmin⟩, by simp [callsOf], hdt, hatt⟩
 
+/-! ### adaptive steppers with ANY tracker collection: never late -/
+
+/-- a call of the adaptive stepper from `t` towards `tEnd`, both not beyond a time `B` (`t` strictly before it):
+whatever the error estimator answers, the stepper returns before `B + dt_min`; time steps stay within `(0, dtMax]` -/
+theorem adaptiveStepper_bound (dtMin tEnd B dtMax : K) (hmin : 0 < dtMin) (hB : tEnd ≤ B) :
+    ∀ (att : List (Attempt K)) (t dtOpt : K) (steps : Nat) (r : List (Attempt K) × K × K × Nat),
+      t < B → (0 < dtOpt ∧ dtOpt ≤ dtMax) → (∀ x ∈ att, 0 < x.dtNext ∧ x.dtNext ≤ dtMax) →
+      adaptiveStepper dtMin tEnd att t dtOpt steps = some r →
+      r.2.1 < B + dtMin ∧ (0 < r.2.2.1 ∧ r.2.2.1 ≤ dtMax) ∧ (∀ x ∈ r.1, 0 < x.dtNext ∧ x.dtNext ≤ dtMax) := by
+  intro att
+  induction att with
+  | nil => intro t dtOpt steps r _ _ _ h; simp [adaptiveStepper] at h
+  | cons a rest ih =>
+    intro t dtOpt steps r ht hopt hatt h
+    rw [adaptiveStepper_cons] at h
+    by_cases hlt : landT dtMin tEnd a t dtOpt < tEnd
+    · rw [if_pos hlt] at h
+      exact ih _ _ _ r (lt_of_lt_of_le hlt hB) (hatt a (List.mem_cons_self))
+        (fun x hx => hatt x (List.mem_cons_of_mem _ hx)) h
+    · rw [if_neg hlt] at h
+      have hr : r = (rest, landT dtMin tEnd a t dtOpt, dtOpt, (if a.accept then steps + 1 else steps)) := by
+        injection h with h; exact h.symm
+      subst hr
+      refine ⟨?_, hopt, fun x hx => hatt x (List.mem_cons_of_mem _ hx)⟩
+      show landT dtMin tEnd a t dtOpt < B + dtMin
+      unfold landT
+      by_cases hacc : a.accept = true
+      · rw [if_pos hacc]
+        by_cases hne : dtStep dtMin dtOpt (tEnd - t) < tEnd - t ∨ tEnd - t < dtStep dtMin dtOpt (tEnd - t)
+        · rw [if_pos hne]
+          rw [dtStep_eq] at hne ⊢
+          rcases le_total dtMin (min dtOpt (tEnd - t)) with hc | hc
+          · rw [max_eq_left hc]
+            have : min dtOpt (tEnd - t) ≤ tEnd - t := min_le_right _ _
+            linarith
+          · rw [max_eq_right hc]; linarith
+        · rw [if_neg hne]; linarith
+      · rw [if_neg hacc]; linarith
+
+/-- the `k`-th call is less than `dtMax/2` before the `k`-th scheduled time and less than `dt_min` after it -/
+def AdWindow (D τ0 dtMin dtMax : K) (k : Nat) (x : K) : Prop :=
+  τ0 + k * D - dtMax / 2 < x ∧ x < τ0 + k * D + dtMin
+
+/-- loop-head invariant for the tracker at list position `j` (constant schedule) among any other trackers -/
+structure AdInvJ (D τ0 dtMin dtMax : K) (C : σ → K → Prop) (j : Nat) (a : AState K S σ) (m : Nat) : Prop where
+  tr : ∃ tr, a.st.trs[j]? = some tr ∧ C tr.sched (τ0 + m * D) ∧ tr.due = some (τ0 + m * D)
+  pos : a.st.t < τ0 + m * D + dtMin
+  calls : List.Forall₂ (AdWindow D τ0 dtMin dtMax) (List.range m) (callsOf j a.st.trace)
+  dtb : 0 < a.dt ∧ a.dt ≤ dtMax
+  attb : ∀ x ∈ a.att, 0 < x.dtNext ∧ x.dtNext ≤ dtMax
+
+/-- one `handle` of the whole collection (tolerance `0 < atol ≤ dtMax/2`) at a state satisfying the invariant: the
+tracker is served iff due, by one call inside its window, without catch-up; afterwards its pending time lies strictly
+in the future -/
+theorem adInvJ_handle (nxt : σ → K → σ × Option K) (D τ0 dtMin dtMax : K) (hD : dtMin ≤ D)
+    (C : σ → K → Prop) (hC : ConstLike nxt D C) (j : Nat) (a : AState K S σ) (m : Nat)
+    (h : AdInvJ D τ0 dtMin dtMax C j a m) (atol : K) (ha0 : 0 < atol) (ha1 : atol ≤ dtMax / 2) :
+    ∃ m', (∃ tr, (handleAll nxt atol a.st.t a.st.u 0 a.st.trs).1[j]? = some tr ∧ C tr.sched (τ0 + (m' : Nat) * D) ∧
+        tr.due = some (τ0 + (m' : Nat) * D)) ∧
+      a.st.t < τ0 + (m' : Nat) * D ∧
+      List.Forall₂ (AdWindow D τ0 dtMin dtMax) (List.range m')
+        (callsOf j (a.st.trace ++ (handleAll nxt atol a.st.t a.st.u 0 a.st.trs).2.1)) := by
+  obtain ⟨tr, hj, hs, hdue⟩ := h.tr
+  have hget := handleAll_getElem? nxt atol a.st.t a.st.u a.st.trs 0 j tr hj
+  have hcalls := handleAll_callsOf nxt atol a.st.t a.st.u a.st.trs j tr hj
+  have hp := h.pos
+  by_cases hd : isDue tr.due atol a.st.t = true
+  · have hd' : τ0 + m * D - atol < a.st.t := by
+      rw [hdue] at hd; simpa [isDue] using hd
+    obtain ⟨n1, n2⟩ := hC tr.sched (τ0 + m * D) a.st.t hs
+    have hnc : Interrupts.constNext (τ0 + m * D) D a.st.t = τ0 + ((m + 1 : Nat) : K) * D := by
+      rw [constNext_no_catchup' _ _ _ (by linarith)]; push_cast; ring
+    refine ⟨m + 1, ⟨served nxt a.st.t a.st.u tr, by rw [hget, if_pos hd], ?_, ?_⟩, ?_, ?_⟩
+    · show C (nxt tr.sched a.st.t).1 _
+      rw [← hnc]; exact n2
+    · show (nxt tr.sched a.st.t).2 = _
+      rw [n1, hnc]
+    · push_cast; linarith
+    · rw [callsOf_append, hcalls, if_pos hd, List.range_succ]
+      refine List.rel_append h.calls (List.Forall₂.cons ⟨by linarith, hp⟩ List.Forall₂.nil)
+  · have hd' : ¬ τ0 + m * D - atol < a.st.t := by
+      rw [hdue] at hd; simpa [isDue] using hd
+    refine ⟨m, ⟨tr, by rw [hget, if_neg hd], hs, hdue⟩, by linarith [not_lt.mp hd'], ?_⟩
+    rw [callsOf_append, hcalls, if_neg hd, List.append_nil]; exact h.calls
+
+/-- **adaptive_never_late_among_trackers** (adaptive stepper, ANY tracker collection).  A tracker at any list
+position with constant interval `D ≥ dt_min`, among any other trackers with any schedules and any stop behaviour,
+all time steps of the run within `(0, dtMax]`, `eps ≤ 1/2`: its `k`-th call serves its `k`-th scheduled time (none
+skipped, none served twice) LESS THAN `dt_min` AFTER it - never a step late - and less than `dtMax/2` before it (it
+is handled together with another tracker that is due: `adaptive_two_trackers_served_early`, known finding) - on every
+path. -/
+theorem adaptive_never_late_among_trackers (c : Cfg K S σ) (dtMin dtMax : K) (flow : S → K → K → S)
+    (he0 : 0 < c.eps) (he1 : c.eps ≤ 1 / 2) (hmin : 0 < dtMin) (D τ0 : K) (hD : dtMin ≤ D)
+    (C : σ → K → Prop) (hC : ConstLike c.nxt D C) (j : Nat) :
+    ∀ (fuel : Nat) (a : AState K S σ) (m : Nat), AdInvJ D τ0 dtMin dtMax C j a m →
+      ∃ m', List.Forall₂ (AdWindow D τ0 dtMin dtMax) (List.range m')
+        (callsOf j (finalHandleAdaptive c (loopAdaptive c dtMin flow fuel a)).1.st.trace) := by
+  intro fuel
+  induction fuel with
+  | zero =>
+    intro a m h
+    refine ⟨m, ?_⟩
+    show List.Forall₂ _ _ (callsOf j (finalHandleAdaptive c (a, .fuel)).1.st.trace)
+    rw [finalHandleAdaptive_of_ne_final c a .fuel (by simp)]
+    exact h.calls
+  | succ n ih =>
+    intro a m h
+    have hdtM : 0 < dtMax := lt_of_lt_of_le h.dtb.1 h.dtb.2
+    have hhalf : 0 < (half : K) * a.dt ∧ (half : K) * a.dt ≤ dtMax / 2 := by
+      rw [half_mul]; constructor <;> linarith [h.dtb.1, h.dtb.2]
+    have hea : 0 < c.eps * a.dt ∧ c.eps * a.dt ≤ dtMax / 2 := by
+      constructor
+      · exact mul_pos he0 h.dtb.1
+      · have := h.dtb.1; have := h.dtb.2; nlinarith
+    unfold loopAdaptive iterOnceAdaptive
+    by_cases hc : a.st.t < c.tEnd - c.eps * a.dt
+    · rw [if_pos hc]
+      obtain ⟨m', ⟨tr', hj', hs', hdue'⟩, hfut, hcalls'⟩ :=
+        adInvJ_handle c.nxt D τ0 dtMin dtMax hD C hC j a m h (half * a.dt) hhalf.1 hhalf.2
+      cases herr : (handleAll c.nxt (half * a.dt) a.st.t a.st.u 0 a.st.trs).2.2 with
+      | some r =>
+        simp only [herr]
+        rw [finalHandleAdaptive_of_ne_final c _ _ (by simp)]
+        exact ⟨m', hcalls'⟩
+      | none =>
+        simp only [herr]
+        cases hst : adaptiveStepper dtMin (clip (nextAction (handleAll c.nxt (half * a.dt) a.st.t a.st.u 0
+            a.st.trs).1) c.tEnd) a.att a.st.t a.dt 0 with
+        | none =>
+          dsimp only
+          rw [finalHandleAdaptive_of_ne_final c _ _ (by simp)]
+          exact ⟨m', hcalls'⟩
+        | some r =>
+          dsimp only
+          have hmem : tr' ∈ (handleAll c.nxt (half * a.dt) a.st.t a.st.u 0 a.st.trs).1 :=
+            List.mem_of_getElem? hj'
+          have hclip := clip_nextAction_le _ c.tEnd tr' hmem _ hdue'
+          obtain ⟨hland, hdt', hatt'⟩ := adaptiveStepper_bound dtMin _ (τ0 + (m' : Nat) * D) dtMax hmin hclip
+            a.att a.st.t a.dt 0 r hfut h.dtb h.attb hst
+          exact ih _ m' ⟨⟨tr', hj', hs', hdue'⟩, hland, hcalls', hdt', hatt'⟩
+    · rw [if_neg hc]
+      show ∃ m', List.Forall₂ _ _ (callsOf j (finalHandleAdaptive c (a, .final)).1.st.trace)
+      obtain ⟨m', _, _, hcalls'⟩ :=
+        adInvJ_handle c.nxt D τ0 dtMin dtMax hD C hC j a m h (c.eps * a.dt) hea.1 hea.2
+      exact ⟨m', hcalls'⟩
+
+/-- **adaptive_never_late_run**: the statement for a whole `Controller.run` with an adaptive stepper: the tracker at
+list position `j` has the concrete `ConstantInterrupts(D)` from `t_start`, the others are arbitrary. -/
+theorem adaptive_never_late_run (dt tStart tEnd eps dtMin dtMax : K) (flow : S → K → K → S)
+    (att : List (Attempt K)) (u0 : S) (hdt : 0 < dt ∧ dt ≤ dtMax) (he0 : 0 < eps) (he1 : eps ≤ 1 / 2)
+    (hmin : 0 < dtMin) (D : K) (hD : dtMin ≤ D) (hatt : ∀ x ∈ att, 0 < x.dtNext ∧ x.dtNext ≤ dtMax)
+    (specs : List (TrackerSpec K S)) (j : Nat) (sp : TrackerSpec K S) (hj : specs[j]? = some sp)
+    (hsched : sp.sched = .const D none) (fuel : Nat) :
+    ∃ m, List.Forall₂ (AdWindow D tStart dtMin dtMax) (List.range m)
+      (callsOf j (runAdaptiveSpec dt tStart tEnd eps dtMin flow att u0 specs fuel).1.trace) := by
+  set c : Cfg K S (Sched K) :=
+    { dt := dt, tStart := tStart, tEnd := tEnd, eps := eps, step := fun u _ => u, nxt := Sched.next }
+  have hs0 : (sp.init tStart).sched = Sched.const D tStart ∧ (sp.init tStart).due = some tStart := by
+    unfold TrackerSpec.init
+    rw [hsched]
+    exact ⟨rfl, rfl⟩
+  exact adaptive_never_late_among_trackers c dtMin dtMax flow he0 he1 hmin D tStart hD _ (sched_constLike D) j fuel
+    { st := { t := tStart, u := u0, steps := 0, trs := specs.map (fun s => s.init tStart), trace := [], iters := 0 },
+      dt := dt, att := att } 0
+    ⟨⟨sp.init tStart, by simp [List.getElem?_map, hj], by simpa using hs0.1, by simpa using hs0.2⟩,
+      by simpa using hmin, by simp [callsOf], hdt, hatt⟩
+
+
 end
 
 /-! ### kernel-evaluated runs of the adaptive model -/
@@ -396,6 +565,17 @@ theorem adaptive_overshoot_by_dtmin :
       [⟨true, 19 / 20⟩, ⟨true, 19 / 20⟩, ⟨true, 19 / 20⟩, ⟨true, 19 / 20⟩] (0 : Rat)
       [ { kind := .storage, sched := .const 1 none, stopAt := fun _ _ _ => none } ] 100
     R.1.exit = .final ∧ R.1.tFinal = 2 ∧ R.1.trackers.map (fun tr => tr.times) = [[0, 21 / 20, 2]] := by
+  decide +kernel
+
+/-- two trackers on the adaptive model (intervals 1 and 97/100, `dt = 1/10` kept by the oracle): tracker 0 is called
+at 0, 97/100, 2, 3 - the call for its scheduled time 1 is 3/100 early (`< dt/2`), none is late -/
+example :
+    let R := runAdaptiveSpec (1 / 10 : Rat) 0 3 (1 / 1000000) (1 / 10000000000) (fun u t s => u + (s - t))
+      (List.replicate 60 ⟨true, 1 / 10⟩) (0 : Rat)
+      [ { kind := .storage, sched := .const 1 none, stopAt := fun _ _ _ => none },
+        { kind := .storage, sched := .const (97 / 100) none, stopAt := fun _ _ _ => none } ] 100
+    R.1.exit = .final ∧ R.1.tFinal = 3 ∧
+      R.1.trackers.map (fun tr => tr.times) = [[0, 97 / 100, 2, 3], [0, 97 / 100, 97 / 50, 291 / 100]] := by
   decide +kernel
 
 end PdeVerif.Controller
